@@ -123,11 +123,12 @@ Qed.
 Definition valid_orders (i : inst) (ho vo : list string) : Prop :=
   Permutation ho (map fst (e_headers (eff_ep i))) /\ Permutation vo (map fst (i_values i)).
 
-Theorem key_deterministic : forall H i q ho ho' vo vo',
-  valid_orders i ho vo -> valid_orders i ho' vo' -> order_free i = true ->
-  cache_key H ho vo i q = cache_key H ho' vo' i q.
+Theorem key_deterministic : forall fx H i q ho ho' vo vo',
+  valid_orders i ho vo -> valid_orders i ho' vo' -> order_free i = true \/ fx1 fx = true ->
+  cache_key fx H ho vo i q = cache_key fx H ho' vo' i q.
 Proof.
-  intros H i q ho ho' vo vo' [P1 P2] [P1' P2'] F.
+  intros fx H i q ho ho' vo vo' [P1 P2] [P1' P2'] [F|F].
+  2: { unfold cache_key, key_fields, ep_hash, ep_fields, hash_order. rewrite F. reflexivity. }
   unfold order_free in F. apply andb_true_iff in F as [F1 F2].
   apply Nat.leb_le in F1, F2.
   assert (ho = ho') as ->.
@@ -157,7 +158,7 @@ Definition injective (H : string -> string) : Prop := forall a b, H a = H b -> a
 Theorem F1_refuted :
   exists i q ho ho',
     order_free i = false /\ valid_orders i ho [] /\ valid_orders i ho' [] /\
-    forall H, injective H -> cache_key H ho [] i q <> cache_key H ho' [] i q.
+    forall H, injective H -> cache_key fx_none H ho [] i q <> cache_key fx_none H ho' [] i q.
 Proof.
   exists w_gen_two_headers, (q_plain "t.alice.r"), ["X-A"; "X-B"], ["X-B"; "X-A"].
   splits.
@@ -173,7 +174,8 @@ Qed.
 
 (** What [exec_cached] needs to know about a step: the key it looks up and the
     answer of a fresh evaluation. *)
-Record areq := { a_key : option string; a_fresh : outcome * nat; a_store : bool }.
+Record areq := { a_key : option string; a_fresh : outcome * nat; a_store : bool;
+                 a_recheck : result -> outcome (* what a hit makes of the stored result *) }.
 
 Definition aexec (c : cache) (a : areq) : sres * cache :=
   match a_key a with
@@ -181,7 +183,7 @@ Definition aexec (c : cache) (a : areq) : sres * cache :=
     let '(o, n) := a_fresh a in ({| sr_key := None; sr_hit := false; sr_calls := n; sr_out := o |}, c)
   | Some k =>
     match lookup k c with
-    | Some r => ({| sr_key := Some k; sr_hit := true; sr_calls := 0; sr_out := OAllow r |}, c)
+    | Some r => ({| sr_key := Some k; sr_hit := true; sr_calls := 0; sr_out := a_recheck a r |}, c)
     | None =>
       let '(o, n) := a_fresh a in
       ({| sr_key := Some k; sr_hit := false; sr_calls := n; sr_out := o |},
@@ -195,28 +197,30 @@ Fixpoint arun (c : cache) (l : list areq) : list sres :=
   | a :: r => let '(x, c') := aexec c a in x :: arun c' r
   end.
 
-Definition areq_of (H : string -> string) (w : world) (s : step) : areq :=
-  {| a_key := cache_key H (st_ho s) (st_vo s) (st_inst s) (st_req s);
-     a_fresh := exec_fresh w (st_inst s) (st_req s); a_store := true |}.
+Definition areq_of (fx : fixes) (H : string -> string) (w : world) (s : step) : areq :=
+  {| a_key := cache_key fx H (st_ho s) (st_vo s) (st_inst s) (st_req s);
+     a_fresh := exec_fresh w (st_inst s) (st_req s); a_store := true;
+     a_recheck := recheck fx (st_inst s) |}.
 
-Lemma exec_cached_aexec H w c s :
-  exec_cached H w c (st_ho s) (st_vo s) (st_inst s) (st_req s) = aexec c (areq_of H w s).
+Lemma exec_cached_aexec fx H w c s :
+  exec_cached fx H w c (st_ho s) (st_vo s) (st_inst s) (st_req s) = aexec c (areq_of fx H w s).
 Proof. reflexivity. Qed.
 
-Lemma run_cached_arun H w : forall h c, run_cached H w c h = arun c (map (areq_of H w) h).
+Lemma run_cached_arun fx H w : forall h c, run_cached fx H w c h = arun c (map (areq_of fx H w) h).
 Proof.
   induction h as [|s h IH]; intro c; simpl; [reflexivity|].
-  rewrite exec_cached_aexec. destruct (aexec c (areq_of H w s)) as [x c']. now rewrite IH.
+  rewrite exec_cached_aexec. destruct (aexec c (areq_of fx H w s)) as [x c']. now rewrite IH.
 Qed.
 
 (** The semantic content of "a result is served from the cache only for a
     request for which a fresh evaluation would yield the same result":
     whenever two requests of the history share a key and a fresh evaluation of
-    one is allowed with result [r], a fresh evaluation of the other is allowed
-    with the same result. *)
+    one is allowed with result [r], what the other makes of a stored [r] is what a
+    fresh evaluation of it yields (without re-validation on a hit: it is allowed
+    with the same result). *)
 Definition compatible (l : list areq) : Prop :=
   forall a b k r, In a l -> In b l -> a_key a = Some k -> a_key b = Some k ->
-                  fst (a_fresh a) = OAllow r -> fst (a_fresh b) = OAllow r.
+                  fst (a_fresh a) = OAllow r -> a_recheck b r = fst (a_fresh b).
 
 (** cache invariant: every entry is the fresh result of an earlier request with that key *)
 Definition backed (seen : list areq) (c : cache) : Prop :=
@@ -257,7 +261,7 @@ Proof.
     + destruct (lookup k c) as [r|] eqn:L.
       * injection X as <- <-. simpl.
         destruct (B k r L) as (a0 & I & K0 & F0).
-        symmetry. apply (C a0 a k r); auto.
+        apply (C a0 a k r); auto.
         -- apply in_or_app; auto.
         -- apply in_or_app; right; left; reflexivity.
       * destruct (a_fresh a) as [o n]. injection X as <- <-. reflexivity.
@@ -277,14 +281,14 @@ Qed.
     compatible shows different outcomes with and without the cache *)
 Theorem incompatible_not_transparent : forall a b k r,
   a_key a = Some k -> a_key b = Some k -> a_store a = true ->
-  fst (a_fresh a) = OAllow r -> fst (a_fresh b) <> OAllow r ->
+  fst (a_fresh a) = OAllow r -> a_recheck b r <> fst (a_fresh b) ->
   map sr_out (arun [] [a; b]) <> map (fun a => fst (a_fresh a)) [a; b].
 Proof.
   intros a b k r Ka Kb Sa Fa Fb E.
   destruct (a_fresh a) as [o n] eqn:FA. simpl in Fa. subst o.
   assert (E1 : aexec [] a = ({| sr_key := Some k; sr_hit := false; sr_calls := n; sr_out := OAllow r |}, [(k, r)])).
   { unfold aexec. rewrite Ka, FA, Sa. reflexivity. }
-  assert (E2 : aexec [(k, r)] b = ({| sr_key := Some k; sr_hit := true; sr_calls := 0; sr_out := OAllow r |}, [(k, r)])).
+  assert (E2 : aexec [(k, r)] b = ({| sr_key := Some k; sr_hit := true; sr_calls := 0; sr_out := a_recheck b r |}, [(k, r)])).
   { unfold aexec. rewrite Kb. simpl. rewrite String.eqb_refl. reflexivity. }
   cbn [arun map] in E. rewrite E1 in E. rewrite E2 in E. rewrite FA in E. simpl in E.
   injection E as E. congruence.
@@ -350,39 +354,40 @@ Qed.
 
 (* ------------------------------------------------------------------ the same for histories of steps *)
 
-Definition key_of (H : string -> string) (s : step) : option string :=
-  cache_key H (st_ho s) (st_vo s) (st_inst s) (st_req s).
+Definition key_of (fx : fixes) (H : string -> string) (s : step) : option string :=
+  cache_key fx H (st_ho s) (st_vo s) (st_inst s) (st_req s).
 
 Definition fresh_of (w : world) (s : step) : outcome := fst (exec_fresh w (st_inst s) (st_req s)).
 
 (** "a result is served from the cache only for a request for which a fresh
     evaluation would yield the same result", for the look-ups of a history *)
-Definition compatible_steps (H : string -> string) (w : world) (h : list step) : Prop :=
-  forall a b k r, In a h -> In b h -> key_of H a = Some k -> key_of H b = Some k ->
-                  fresh_of w a = OAllow r -> fresh_of w b = OAllow r.
+Definition compatible_steps (fx : fixes) (H : string -> string) (w : world) (h : list step) : Prop :=
+  forall a b k r, In a h -> In b h -> key_of fx H a = Some k -> key_of fx H b = Some k ->
+                  fresh_of w a = OAllow r -> recheck fx (st_inst b) r = fresh_of w b.
 
-Lemma compatible_steps_areq H w h : compatible_steps H w h -> compatible (map (areq_of H w) h).
+Lemma compatible_steps_areq fx H w h : compatible_steps fx H w h -> compatible (map (areq_of fx H w) h).
 Proof.
   intros C a b k r Ia Ib Ka Kb Fa.
   apply in_map_iff in Ia as (sa & <- & Ia). apply in_map_iff in Ib as (sb & <- & Ib).
   apply (C sa sb k r); auto.
 Qed.
 
-Theorem cache_transparent_steps : forall H w h,
-  compatible_steps H w h ->
-  map sr_out (run_cached H w [] h) = map fst (run_fresh w h).
+Theorem cache_transparent_steps : forall fx H w h,
+  compatible_steps fx H w h ->
+  map sr_out (run_cached fx H w [] h) = map fst (run_fresh w h).
 Proof.
-  intros H w h C. rewrite run_cached_arun.
-  rewrite (cache_transparent_abstract _ (compatible_steps_areq H w h C)).
+  intros fx H w h C. rewrite run_cached_arun.
+  rewrite (cache_transparent_abstract _ (compatible_steps_areq fx H w h C)).
   unfold run_fresh. rewrite !map_map. reflexivity.
 Qed.
 
-Theorem not_transparent_steps : forall H w a b k r,
-  key_of H a = Some k -> key_of H b = Some k -> fresh_of w a = OAllow r -> fresh_of w b <> OAllow r ->
-  map sr_out (run_cached H w [] [a; b]) <> map fst (run_fresh w [a; b]).
+Theorem not_transparent_steps : forall fx H w a b k r,
+  key_of fx H a = Some k -> key_of fx H b = Some k -> fresh_of w a = OAllow r ->
+  recheck fx (st_inst b) r <> fresh_of w b ->
+  map sr_out (run_cached fx H w [] [a; b]) <> map fst (run_fresh w [a; b]).
 Proof.
-  intros H w a b k r Ka Kb Fa Fb. rewrite run_cached_arun.
-  apply (incompatible_not_transparent (areq_of H w a) (areq_of H w b) k r); auto.
+  intros fx H w a b k r Ka Kb Fa Fb. rewrite run_cached_arun.
+  apply (incompatible_not_transparent (areq_of fx H w a) (areq_of fx H w b) k r); auto.
 Qed.
 
 (* ------------------------------------------------------------------ soundness of the equality tests *)
@@ -485,8 +490,8 @@ Qed.
 (* ------------------------------------------------------------------ identical requests hit *)
 
 (** a caching instance that a fresh evaluation allows has a key *)
-Lemma allowed_has_key H w i q ho vo r :
-  enabled i = true -> fst (exec_fresh w i q) = OAllow r -> exists k, cache_key H ho vo i q = Some k.
+Lemma allowed_has_key fx H w i q ho vo r :
+  enabled i = true -> fst (exec_fresh w i q) = OAllow r -> exists k, cache_key fx H ho vo i q = Some k.
 Proof.
   intros En F. unfold cache_key. rewrite En.
   unfold key_fields. unfold exec_fresh, mk_sent in F.
@@ -500,22 +505,22 @@ Definition step_orders_valid (s : step) : Prop := valid_orders (st_inst s) (st_h
     calling the remote system again, whatever order Go iterated the maps in —
     provided the key does not depend on that order (at most one endpoint header
     and one value: outside the guard of C11-F1). *)
-Theorem identical_requests_hit : forall H w l1 a l2 b r c,
+Theorem identical_requests_hit : forall fx H w l1 a l2 b r c,
   same_request a b = true ->
   step_orders_valid a -> step_orders_valid b ->
-  enabled (st_inst a) = true -> order_free (st_inst a) = true ->
+  enabled (st_inst a) = true -> order_free (st_inst a) = true \/ fx1 fx = true ->
   fresh_of w a = OAllow r ->
-  exists x, nth_error (run_cached H w c (l1 ++ a :: l2 ++ [b])) (length l1 + S (length l2)) = Some x /\
+  exists x, nth_error (run_cached fx H w c (l1 ++ a :: l2 ++ [b])) (length l1 + S (length l2)) = Some x /\
             sr_hit x = true /\ sr_calls x = 0.
 Proof.
-  intros H w l1 a l2 b r c Same Va Vb En Free Fa.
+  intros fx H w l1 a l2 b r c Same Va Vb En Free Fa.
   destruct (same_request_eq a b Same) as [Ei Eq].
-  destruct (allowed_has_key H w (st_inst a) (st_req a) (st_ho a) (st_vo a) r En Fa) as [k Ka].
-  assert (Kb : key_of H b = Some k).
+  destruct (allowed_has_key fx H w (st_inst a) (st_req a) (st_ho a) (st_vo a) r En Fa) as [k Ka].
+  assert (Kb : key_of fx H b = Some k).
   { unfold key_of. rewrite <- Ka, <- Ei, <- Eq. unfold step_orders_valid in Vb. rewrite <- Ei in Vb.
     apply key_deterministic; auto. }
   rewrite run_cached_arun, map_app. simpl map. rewrite map_app. simpl map.
-  destruct (hit_abstract (map (areq_of H w) l1) (areq_of H w a) (map (areq_of H w) l2) (areq_of H w b) k r c)
+  destruct (hit_abstract (map (areq_of fx H w) l1) (areq_of fx H w a) (map (areq_of fx H w) l2) (areq_of fx H w b) k r c)
     as (x & N & Hx); auto.
   rewrite !map_length in N. eauto.
 Qed.
@@ -540,7 +545,7 @@ Definition intro_ho : list string := ["Accept"; "Content-Type"].
     accepted by the rule-level instance that requires the scope "admin" *)
 Theorem F2_refuted :
   exists w a b, g_F2 [a; b] = true /\ step_orders_valid a /\ step_orders_valid b /\
-    forall H, map sr_out (run_cached H w [] [a; b]) <> map fst (run_fresh w [a; b]).
+    forall H, map sr_out (run_cached fx_none H w [] [a; b]) <> map fst (run_fresh w [a; b]).
 Proof.
   exists w_world, (mk_step (w_intro []) (q_plain "t.alice.r") intro_ho []),
          (mk_step (w_intro ["admin"]) (q_plain "t.alice.r") intro_ho []).
@@ -563,7 +568,7 @@ Definition q_sub (id : string) (headers outputs : alist) : reqdata :=
 (** C11-F3: rule-level expressions are not evaluated on a hit *)
 Theorem F3_refuted :
   exists w a b, g_F3 [a; b] = true /\ step_orders_valid a /\ step_orders_valid b /\
-    forall H, map sr_out (run_cached H w [] [a; b]) <> map fst (run_fresh w [a; b]).
+    forall H, map sr_out (run_cached fx_none H w [] [a; b]) <> map fst (run_fresh w [a; b]).
 Proof.
   exists w_world, (mk_step (w_remote []) (q_sub "alice" [] []) [] []),
          (mk_step (w_remote [EFalse]) (q_sub "alice" [] []) [] []).
@@ -584,8 +589,8 @@ Definition w_ctx_shift : inst :=
 (** C11-F4 on a history: two values shifted against each other share the key; the
     second request is answered with the response computed for the first *)
 Theorem F4_history_refuted :
-  exists w a b, (forall H, g_F4 H [a; b] = true) /\ step_orders_valid a /\ step_orders_valid b /\
-    forall H, map sr_out (run_cached H w [] [a; b]) <> map fst (run_fresh w [a; b]).
+  exists w a b, (forall H, g_F4 fx_none H [a; b] = true) /\ step_orders_valid a /\ step_orders_valid b /\
+    forall H, map sr_out (run_cached fx_none H w [] [a; b]) <> map fst (run_fresh w [a; b]).
 Proof.
   exists w_world,
     (mk_step w_ctx_shift (q_sub "alice" [("X-V1", "1"); ("X-V2", "v22")] []) ["X-Val"] ["v1"; "v2"]),
@@ -606,7 +611,7 @@ Definition w_ctx_fwd : inst :=
 (** C11-F6: the value of a forwarded header is sent to the remote system but is not in the key *)
 Theorem F6_refuted :
   exists w a b, g_F6 [a; b] = true /\ step_orders_valid a /\ step_orders_valid b /\
-    forall H, map sr_out (run_cached H w [] [a; b]) <> map fst (run_fresh w [a; b]).
+    forall H, map sr_out (run_cached fx_none H w [] [a; b]) <> map fst (run_fresh w [a; b]).
 Proof.
   exists w_world, (mk_step w_ctx_fwd (q_sub "alice" [("X-F1", "one")] []) [] []),
          (mk_step w_ctx_fwd (q_sub "alice" [("X-F1", "two")] []) [] []).
@@ -625,7 +630,7 @@ Definition w_ctx_outputs : inst :=
 (** C11-F7: `.Outputs` in the endpoint URL is not in the key *)
 Theorem F7_refuted :
   exists w a b, g_F7 [a; b] = true /\ step_orders_valid a /\ step_orders_valid b /\
-    forall H, map sr_out (run_cached H w [] [a; b]) <> map fst (run_fresh w [a; b]).
+    forall H, map sr_out (run_cached fx_none H w [] [a; b]) <> map fst (run_fresh w [a; b]).
 Proof.
   exists w_world, (mk_step w_ctx_outputs (q_sub "alice" [] [("foo", "A")]) [] []),
          (mk_step w_ctx_outputs (q_sub "alice" [] [("foo", "B")]) [] []).
